@@ -154,6 +154,62 @@ fn run_trav<T: TraversalMut, N, const K: usize>(
     out
 }
 
+/// the same through the Iterator wrapper TraversalIter (next / size_hint of Iterator, skip_subtree of the wrapper)
+fn run_trav_iter<T: TraversalMut, N, const K: usize>(
+    tree: &Tree<N, K>,
+    start: TreeIndex,
+    sc: &[Cmd],
+    show: &dyn Fn(&T::Item) -> String,
+) -> String {
+    let mut out = String::new();
+    let mut it = match catch(AssertUnwindSafe(|| T::iter(tree, start))) {
+        Ok(it) => it,
+        Err(_) => return "p".to_string(),
+    };
+    match catch(AssertUnwindSafe(|| it.size_hint())) {
+        Ok(h) => write!(out, "(i {}) ", hint(h)).unwrap(),
+        Err(_) => return "p".to_string(),
+    }
+    for c in sc {
+        let res = catch(AssertUnwindSafe(|| match c {
+            Cmd::Next => match it.next() {
+                Some(x) => format!("({} {})", show(&x), hint(it.size_hint())),
+                None => format!("(e {})", hint(it.size_hint())),
+            },
+            Cmd::Skip => {
+                it.skip_subtree();
+                format!("(s {})", hint(it.size_hint()))
+            }
+        }));
+        match res {
+            Ok(s) => {
+                out.push_str(&s);
+                out.push(' ');
+            }
+            Err(_) => {
+                out.push('p');
+                break;
+            }
+        }
+    }
+    out
+}
+
+/// alternates between the TraversalMut interface and the TraversalIter wrapper
+fn run_either<T: TraversalMut, N, const K: usize>(
+    k: usize,
+    tree: &Tree<N, K>,
+    start: TreeIndex,
+    sc: &[Cmd],
+    show: &dyn Fn(&T::Item) -> String,
+) -> String {
+    if k % 2 == 0 {
+        run_trav::<T, N, K>(tree, start, sc, show)
+    } else {
+        run_trav_iter::<T, N, K>(tree, start, sc, show)
+    }
+}
+
 fn run_poly(tree: &AffTree<2>, sc: &[Cmd]) -> String {
     let mut out = String::new();
     let mut it = match catch(AssertUnwindSafe(|| PolyhedraIter::new(&tree.tree))) {
@@ -293,14 +349,14 @@ fn emit_tree_case<const K: usize>(t: &Tree<u32, K>, r: &mut Rng, id: &str, all_f
     for &start in &nodes {
         let m = catch(AssertUnwindSafe(|| t.num_nodes(start))).unwrap_or(3);
         let full = all_full || start == t.get_root_idx() || r.chance(1, 2);
-        for sc in gen_scripts(r, m, full) {
-            write!(out, " (run pre {} {} ({}))", start, sx_script(&sc), run_trav::<DfsPre, u32, K>(t, start, &sc, &item_node)).unwrap();
+        for (k, sc) in gen_scripts(r, m, full).iter().enumerate() {
+            write!(out, " (run pre {} {} ({}))", start, sx_script(sc), run_either::<DfsPre, u32, K>(k, t, start, sc, &item_node)).unwrap();
         }
-        for sc in gen_scripts(r, m, full) {
-            write!(out, " (run bfs {} {} ({}))", start, sx_script(&sc), run_trav::<Bfs, u32, K>(t, start, &sc, &item_node)).unwrap();
+        for (k, sc) in gen_scripts(r, m, full).iter().enumerate() {
+            write!(out, " (run bfs {} {} ({}))", start, sx_script(sc), run_either::<Bfs, u32, K>(k + 1, t, start, sc, &item_node)).unwrap();
         }
-        for sc in gen_scripts(r, m.saturating_sub(1), full) {
-            write!(out, " (run edge {} {} ({}))", start, sx_script(&sc), run_trav::<DfsEdge, u32, K>(t, start, &sc, &item_edge)).unwrap();
+        for (k, sc) in gen_scripts(r, m.saturating_sub(1), full).iter().enumerate() {
+            write!(out, " (run edge {} {} ({}))", start, sx_script(sc), run_either::<DfsEdge, u32, K>(k, t, start, sc, &item_edge)).unwrap();
         }
     }
     // a start index that is not in the tree: new/next must fail the same way in model and code
